@@ -316,7 +316,7 @@ func flowScenario(p flowParams) verifkit.Scenario {
 							x.W.Log("ctl", "apply.mutate.err", ai+1, errStr(err))
 						}
 					}
-					x.W.Log("ctl", "apply.begin", ai+1, kind)
+					x.W.Log("ctl", "apply.begin", ai+1, kind+"|base="+storedSummary(cur))
 					res, err := st.Prov.ApplyPlanLive(x.Ctx, desired, diff.Hash, !noauth)
 					stored := ""
 					if ex, e2 := st.Prov.Export(x.Ctx, stack.PipelineID); e2 == nil {
